@@ -31,9 +31,10 @@ def main():
     envp = ""
     if scratch:
         # development aid: run against a scratch worktree instead of /repo itself (other work may be using /repo)
-        repo = "/tmp/seedrun/wt-%s" % os.path.basename(d)
-        sh("mkdir -p /tmp/seedrun && git -C /repo worktree remove --force %s; git -C /repo worktree add --detach %s HEAD" % (repo, repo))
-        envp = "VERIF_REPO=%s VERIF_CACHE=/tmp/seedrun/cache " % repo
+        base = os.environ.get("SEEDRUN_DIR", "/tmp/seedrun")
+        repo = "%s/wt-%s" % (base, os.path.basename(d))
+        sh("mkdir -p %s && git -C /repo worktree remove --force %s; git -C /repo worktree add --detach %s HEAD" % (base, repo, repo))
+        envp = "VERIF_REPO=%s VERIF_CACHE=%s/cache " % (repo, base)
     st = sh("git -C %s status --porcelain --untracked-files=no" % repo).stdout.strip()
     if st:
         print("refusing: %s is not clean:\n" % repo + st); return 2
